@@ -305,8 +305,11 @@ def run(ctx):
                        "(i.e. at least one non-canonical) or a data-item/format pair")
     # thread-pair independence first (LINE events are switched off again before the enumeration)
     from checks import pair_ops  # noqa: PLC0415
-    from mc import pairs  # noqa: PLC0415
+    from mc import firstuse, pairs  # noqa: PLC0415
 
+    # first use in a process before anything else touches the library (the workers must be pristine)
+    fu_ops = [["dec", pair_ops.LEAVES[0], "ANYVALUE"], ["dec", pair_ops.LEAVES[2], "typed"], ["dec", pair_ops.TREES[1], "ANYVALUE"]]
+    firstuse.run_part(ctx, fu_ops, "C02", 2 if ctx.thorough else 1)
     ops = [["dec", d, "typed"] for d in pair_ops.LEAVES[:4]] + [["dec", pair_ops.LEAVES[4], "ANYVALUE"]] + [["dec", d, "ANYVALUE"] for d in pair_ops.TREES]
     pair_execs = pairs.run_part(ctx, ops, "C02", 2 if ctx.thorough else 1)
     ctx.run_cases(check_case, cases(ctx), "c02", chunk=32)
@@ -314,6 +317,11 @@ def run(ctx):
 
 
 def replay(ctx, detail):
+    if isinstance(detail.get("case"), dict) and detail["case"].get("part") == "first-use":
+        from mc import firstuse  # noqa: PLC0415
+
+        firstuse.replay(ctx, detail["case"], "C02")
+        return
     if isinstance(detail.get("case"), dict) and detail["case"].get("part") == "pair":
         from mc import pairs  # noqa: PLC0415
 
